@@ -1,4 +1,23 @@
 import PV.Model.Wrapper
 import PV.Model.WrapperTrace
+import PV.Lemmas.Wrapper.Defs
+import PV.Lemmas.Wrapper.Basic
+import PV.Lemmas.Wrapper.Inv1
+import PV.Lemmas.Wrapper.Inv2
+import PV.Lemmas.Wrapper.Progress
+import PV.Lemmas.Wrapper.Measure
+import PV.Lemmas.Wrapper.Refine
+import PV.Lemmas.Wrapper.Trace
+/-
+C05 helper lemmas (split over PV/Lemmas/Wrapper/*.lean):
+  Defs     chunk lists, queue contents, the master invariant `Inv`
+  Basic    list / arithmetic facts about `S`, `chunksUpTo`, `qfull`
+  Inv1     characterisation of `step` per label; `Inv` preserved by the feeder labels
+  Inv2     `Inv` preserved by child and collector labels; `inv_reachable`; order / completeness corollaries
+  Progress enabledness lemmas, `cf_progress`, `nf_reachable` (collector never fails), `progress` (no deadlock)
+  Measure  termination measure `mu`, `mu_decreases`
+  Refine   abstraction function `absOf`, `ref_step`
+  Trace    `reachable_of_runTrace`
+-/
 namespace PV.Lemmas.Wrapper
 end PV.Lemmas.Wrapper
